@@ -14,6 +14,15 @@ LEDGER_NOTE = ("Trusted: TLC, JSON bridge, the harness's read-only projection th
                "methods are not generated yet.")
 
 CHECKS = {
+    "C17": (
+        "Registry.tla (admission check + key-index update of node registration) checked by TLC; one behaviour per distinct "
+        "(pre-state, operation) pair replayed on the real registry application; K1-K5/A1 evaluated by TLC (TraceRegistry.tla) on "
+        "registry and staking state recorded after every block of real multiplexer runs",
+        "Exhaustive TLC check of K1/K2 for the transcribed index maintenance over all histories of two nodes and seven "
+        "interchangeable keys (incl. rotations and exchanges of a node's own keys), every model transition executed by the real "
+        "RegisterNode handler with NodeBySubKey compared for every key, and trace validation of key uniqueness, findability, "
+        "index mirrors, claim mirrors and authority failures on real chains.",
+        LEDGER_NOTE + " No runtimes registered; consensus keys not rotated.", "DESIGN.md 4 C17"),
     "C14": (
         "Election.tla (transcribed validator election) checked by TLC against the declarative rule for all small registries and "
         "tie-breaks; real elections recorded by probe applications placed around the scheduler and validated by TLC "
